@@ -98,7 +98,7 @@ theorem line_points_in_box (l : Line) (p : Pt) (hp : p ∈ points l) :
   obtain ⟨k, hk, rfl⟩ := mem_points.mp hp
   exact ptAt_in_box l k hk
 
-example : (⟨4, 3⟩ : Pt) ∈ points ⟨⟨5, 4⟩, ⟨1, 2⟩⟩ := by decide
+example : (⟨2, 3⟩ : Pt) ∈ points ⟨⟨5, 4⟩, ⟨1, 2⟩⟩ := by decide
 
 /-- `points()` commutes with translation (used by C07). -/
 theorem line_points_translate (l : Line) (d : Pt) :
